@@ -134,4 +134,15 @@ META = {
         "insertion_permute",
         ["unseen_parent_configuration", "declared_state_unobserved", "em_iterations", "fit_update_multi_parent"],
     ),
+    "C10": _m(
+        "one evaluation = one simulated run: <=5 columns of 1..40 rows drawn from a PRNG-chosen network (sparse: unobserved parent configurations and "
+        "declared-but-unobserved states occur; state names declared or inferred), one equivalent sample size, one ScoreCache capacity from {1,2,3,5,10000}, "
+        "then a history of 4..16 (40 thorough) calls: local_score(variable, parents) with repeats / permuted parent lists / interleaved variables against the "
+        "cache, the uncached scorer and a scorer on row- and column-permuted data; score(model) and the structure_score wrapper on random DAGs; covered-edge "
+        "reversals (Markov-equivalent pairs) for BDeu / BIC / AIC.  Oracle: closed forms of K2, BDeu, BDs (Scutari 2016), BIC, AIC computed from raw counts with "
+        "math.lgamma / math.log.  Non-trivial = at least one checked call; distinct = distinct trace digest.",
+        "faults: cache_knob (capacity below the number of distinct keys, so the eviction path runs), relabel.  The scores themselves are pure functions; "
+        "the simulated part is the cache's state across the call history.",
+        ["unobserved_parent_configuration", "declared_state_unobserved", "equivalent_pair", "cache_eviction_possible"],
+    ),
 }
